@@ -202,15 +202,15 @@ def run(ctx):
     for fl in flavours(ctx):
         ctx.unit = fl
         ctx.doc('C07.6', 'native API forwarding: each public entry point of this property reaches the implementation of the same name with its parameters in order and returns its result (sibling slips such as trylock -> lock, signal -> broadcast, swapped arguments)')
-        lib.native_forwarding(ctx, 'C07.6', fl, lambda n: n.startswith(('myth_join_counter_', 'myth_join_counterattr_')), floor=4)
-        rule_init_complete(ctx, fl)
+        ctx.attempt(lib.native_forwarding, ctx, 'C07.6', fl, lambda n: n.startswith(('myth_join_counter_', 'myth_join_counterattr_')), floor=4)
+        ctx.attempt(rule_init_complete, ctx, fl)
         v = ctx.view(NATIVE, roots=['myth_join_counter_wait_body', 'myth_join_counter_dec_body',
                                     'myth_join_counter_init_body', 'calc_bits'],
                      stops=('myth_block_on_queue', 'myth_wake_many_from_queue', 'myth_sleep_queue_init', 'calc_bits'), flavour=fl)
-        rule1_wait(ctx, v)
-        rule5_chain(ctx, fl)
-        rule2_dec(ctx, v)
-        rule3_fields(ctx, v)
+        ctx.attempt(rule1_wait, ctx, v)
+        ctx.attempt(rule5_chain, ctx, fl)
+        ctx.attempt(rule2_dec, ctx, v)
+        ctx.attempt(rule3_fields, ctx, v)
 
 
 SYNC = 'src/myth_sync_func.h'
